@@ -226,6 +226,14 @@ class ufunc:
         if extra_kwargs:
             raise TypeError(f"{self.__name__} does not take the following keyword arguments {sorted(extra_kwargs)}")
 
+        if len(args) > self.nin:
+            # numpy's calling convention: arguments after the inputs are ``out``
+            if "out" in kwargs:
+                raise TypeError("cannot specify 'out' as both a positional and keyword argument")
+            extra = args[self.nin :]
+            args = args[: self.nin]
+            kwargs["out"] = extra[0] if len(extra) == 1 else tuple(extra)
+
         dsks = [arg for arg in args if hasattr(arg, "_elemwise")]
         if len(dsks) > 0:
             for dsk in dsks:
